@@ -301,6 +301,10 @@ enum TPlace {
 	SoundOnNewTrack,
 	SoundOnOldTrack,
 	Modulator,
+	/// an effect on a track created through `TrackHandle::add_sub_track` of an existing track
+	NestedTrackEffect,
+	/// a sound on a track created through `TrackHandle::add_sub_track` of a track created in the same gap
+	SoundOnNewNestedTrack,
 }
 
 #[derive(Debug, Clone)]
@@ -327,10 +331,10 @@ fn gen_tokens(src: &mut Src) -> TCase {
 	let np = src.usize_in(1, 5);
 	let mut probes = vec![];
 	for _ in 0..np {
-		let place = src.pick(&[TPlace::SubTrackEffect, TPlace::MainEffect, TPlace::SoundOnMain, TPlace::SoundOnNewTrack, TPlace::SoundOnOldTrack, TPlace::Modulator]);
+		let place = src.pick(&[TPlace::SubTrackEffect, TPlace::MainEffect, TPlace::SoundOnMain, TPlace::SoundOnNewTrack, TPlace::SoundOnOldTrack, TPlace::Modulator, TPlace::NestedTrackEffect, TPlace::SoundOnNewNestedTrack]);
 		let create_gap = if place == TPlace::MainEffect { 0 } else { src.index(n) };
 		let writes = (0..n).map(|_| src.weighted(&[3, 3, 2, 1, 1])).collect();
-		let on_track = matches!(place, TPlace::SubTrackEffect | TPlace::SoundOnNewTrack | TPlace::SoundOnOldTrack);
+		let on_track = matches!(place, TPlace::SubTrackEffect | TPlace::SoundOnNewTrack | TPlace::SoundOnOldTrack | TPlace::NestedTrackEffect | TPlace::SoundOnNewNestedTrack);
 		let pause_gap = if on_track && src.chance(1, 3) { Some(src.usize_in(create_gap, n - 1)) } else { None };
 		probes.push(TProbe { place, create_gap, pause_gap, writes });
 	}
@@ -365,6 +369,9 @@ fn run_tokens(c: &TCase) -> Result<Outcome, Failure> {
 	let mut old_track = mgr.add_sub_track(TrackBuilder::new()).map_err(|_| Failure::simple("setup", "track"))?;
 	let mut probe_track: Vec<Option<kira::track::TrackHandle>> = (0..c.probes.len()).map(|_| None).collect();
 	let mut paused_track = false;
+	let mut nested = false;
+	// parents of nested probe tracks (kept alive for the whole case)
+	let mut parents: Vec<kira::track::TrackHandle> = vec![];
 	// expected reads per probe
 	let mut expect: Vec<Vec<(u64, Token)>> = vec![vec![]; c.probes.len()];
 	let mut last_unread: Vec<Option<Token>> = c.probes.iter().enumerate().map(|(i, p)| (p.place == TPlace::MainEffect).then(|| token(1_000_000, i as u64))).collect();
@@ -406,6 +413,19 @@ fn run_tokens(c: &TCase) -> Result<Outcome, Failure> {
 					}
 					TPlace::Modulator => {
 						mgr.add_modulator(TokModulatorBuilder(core)).map_err(|_| Failure::simple("setup", "modulator"))?;
+					}
+					TPlace::NestedTrackEffect => {
+						nested = true;
+						let t = old_track.add_sub_track(TrackBuilder::new().with_effect(TokEffectBuilder(core))).map_err(|_| Failure::simple("setup", "track"))?;
+						probe_track[i] = Some(t);
+					}
+					TPlace::SoundOnNewNestedTrack => {
+						nested = true;
+						let mut parent = mgr.add_sub_track(TrackBuilder::new()).map_err(|_| Failure::simple("setup", "track"))?;
+						let mut t = parent.add_sub_track(TrackBuilder::new()).map_err(|_| Failure::simple("setup", "track"))?;
+						t.play(TokSoundData(core)).map_err(|_| Failure::simple("setup", "play"))?;
+						probe_track[i] = Some(t);
+						parents.push(parent);
 					}
 					TPlace::MainEffect => unreachable!(),
 				}
@@ -465,6 +485,10 @@ fn run_tokens(c: &TCase) -> Result<Outcome, Failure> {
 	if paused_track {
 		classes.push("command-to-a-resource-on-a-paused-track");
 	}
+	if nested {
+		classes.push("command-to-a-resource-on-a-nested-track");
+	}
+	drop(parents);
 	Ok(Outcome { nontrivial: burst || early || paused_track, classes })
 }
 
@@ -1106,7 +1130,7 @@ impl Property for C07 {
 		"C07"
 	}
 	fn rule(&self) -> &'static str {
-		"each case is one of seven generated scenario families run through the real manager (device rate 8192 Hz, internal buffer 1..128, callback sizes 1..250). V: volume setters with linear tweens of 0..2000 frames on four resources of one signal path (static DC sound, volume-control effect, sub-track, main track), 0..5 commands per gap with bursts on one resource, the path created before the first or a later callback with commands in the same gap; the output is compared frame by frame (1e-4) with a reference that applies the last command of each kind once at the start of the next callback. T: probe Sound / Effect / Modulator objects built on kira::command read a token reader once per on_start_processing; tokens are written 0..4 per gap, also before the probe is added (main-track effect, sub-track effect, sound on main / existing / just-created track, modulator), and a third of the tracks that hold a probe are paused at some gap; the log of reads must be exactly the last token of every burst, once, in the callback that follows, and on_start_processing must run once per callback from the first one. P: a static ramp sound receives bursts of seek_to / seek_by: the audible index must jump exactly once, in the first 4 frames of the next callback, by the last command's amount (3 frames slack), and never otherwise; a streaming sound receives seek and loop-region bursts while its decoder gets 0..130 steps per gap (hook H2): the indices it delivers must equal a reference transport that applies the last command of each kind at its next step. K: clock start / pause / stop / set_speed bursts against a reference clock (reported time and ticking flag after every callback) and tweener set() bursts observed through a parameter linked to it (1e-9). R: a writer thread publishes 200..20000 self-checking values through one CommandWriter while this thread polls the reader with generated spin patterns: values read are untorn, strictly newer than the previous one, and the last write is read. H: a gameplay thread plays a DC sound and raises sound and track volume monotonically while this thread runs callbacks: the output never decreases, stays in range, and ends at exactly the last written value. S: for each of 43 setters (sound / streaming sound volume, panning, playback rate; track volume and send; send-track and main volume; spatial position, strength, volume; listener position and orientation; every setter of filter, EQ, delay, reverb, compressor, distortion, panning and volume control; tweener set; LFO amplitude, offset, frequency, waveform) a scene built with value A receives the setter with B - alone or as the last of a burst, before the first or a later callback, instantly or with a tween of up to 4096 frames - and, once the tween and the effect memory have run out (0.75 s, reverb 3 s), its steady state (RMS, mean, sign changes per channel over 4096 frames; 1 %, LFO 6 %) must equal that of a scene built with B; the case counts only if the same measure tells A and B apart. Non-trivial = a burst of one kind within a gap, a command while a tween is active, a command before the resource's first callback, a decoder step later than the next callback, (R, H) reads / callbacks that really interleaved with the writes, or (S) a setter whose two values are told apart; distinct = distinct decoded choices."
+		"each case is one of seven generated scenario families run through the real manager (device rate 8192 Hz, internal buffer 1..128, callback sizes 1..250). V: volume setters with linear tweens of 0..2000 frames on four resources of one signal path (static DC sound, volume-control effect, sub-track, main track), 0..5 commands per gap with bursts on one resource, the path created before the first or a later callback with commands in the same gap; the output is compared frame by frame (1e-4) with a reference that applies the last command of each kind once at the start of the next callback. T: probe Sound / Effect / Modulator objects built on kira::command read a token reader once per on_start_processing; tokens are written 0..4 per gap, also before the probe is added (main-track effect, sub-track effect, effect on a track nested under an existing track, sound on main / existing / just-created / just-created nested track, modulator), and a third of the tracks that hold a probe are paused at some gap; the log of reads must be exactly the last token of every burst, once, in the callback that follows, and on_start_processing must run once per callback from the first one. P: a static ramp sound receives bursts of seek_to / seek_by: the audible index must jump exactly once, in the first 4 frames of the next callback, by the last command's amount (3 frames slack), and never otherwise; a streaming sound receives seek and loop-region bursts while its decoder gets 0..130 steps per gap (hook H2): the indices it delivers must equal a reference transport that applies the last command of each kind at its next step. K: clock start / pause / stop / set_speed bursts against a reference clock (reported time and ticking flag after every callback) and tweener set() bursts observed through a parameter linked to it (1e-9). R: a writer thread publishes 200..20000 self-checking values through one CommandWriter while this thread polls the reader with generated spin patterns: values read are untorn, strictly newer than the previous one, and the last write is read. H: a gameplay thread plays a DC sound and raises sound and track volume monotonically while this thread runs callbacks: the output never decreases, stays in range, and ends at exactly the last written value. S: for each of 43 setters (sound / streaming sound volume, panning, playback rate; track volume and send; send-track and main volume; spatial position, strength, volume; listener position and orientation; every setter of filter, EQ, delay, reverb, compressor, distortion, panning and volume control; tweener set; LFO amplitude, offset, frequency, waveform) a scene built with value A receives the setter with B - alone or as the last of a burst, before the first or a later callback, instantly or with a tween of up to 4096 frames - and, once the tween and the effect memory have run out (0.75 s, reverb 3 s), its steady state (RMS, mean, sign changes per channel over 4096 frames; 1 %, LFO 6 %) must equal that of a scene built with B; the case counts only if the same measure tells A and B apart. Non-trivial = a burst of one kind within a gap, a command while a tween is active, a command before the resource's first callback, a decoder step later than the next callback, (R, H) reads / callbacks that really interleaved with the writes, or (S) a setter whose two values are told apart; distinct = distinct decoded choices."
 	}
 	fn assumptions(&self) -> Vec<String> {
 		vec![
